@@ -256,8 +256,12 @@ class TemplateLookup(TemplateCollection):
         """Adjust the given ``uri`` based on the given relative URI."""
 
         key = (uri, relativeto)
-        if key in self._uri_cache:
+        try:
+            # (one operation: a bounded cache may drop the entry between
+            # a membership test and the fetch when other threads add to it)
             return self._uri_cache[key]
+        except KeyError:
+            pass
 
         if uri[0] == "/":
             v = self._uri_cache[key] = uri
